@@ -48,6 +48,16 @@ structure DAcc where
   diverged : Bool
   firstFlag : Option Region
 
+/-- Classification of a diverging history. The Impl model follows the real code through every listed
+defect (also through the panic in a READ ONLY transaction: the state after it is fully determined —
+the table's snapshot is registered, nothing else), so the correspondence is exact on every statement
+of every history and no history is cut short. The region printed for a case whose Impl and Spec
+observations differ is the *first region flagged in the history* (by `run_eq_spec_partial` there is
+no divergence without a flag; every later difference may be a consequence of that first one). A
+history in which several listed regions are flagged is additionally attributed to the others by the
+harness' model-free oracle, which tags each failed check with the region decided on the statement
+(`readonly_txn_write_panics` on the panicking write, `commit_overwrites_read_table` on the commit
+that erases a row of a table the session touched but did not write, …). -/
 def stepAcc (a : DAcc) (o : Op) : DAcc :=
   let (i', io, fl) := step a.impl o
   let (s', so, _) := specStep a.spec o
